@@ -3852,6 +3852,10 @@ T('C08', 'twin-compressed-loop-truthy', PK, '        while len(cdata) > 0:\n    
   '        while cdata:\n            pkt = Packet(cdata)\n            self.packets.append(pkt)')
 T('C08', 'twin-compressed-writer-join', PK, '        _pb = bytearray()\n        for pkt in self.packets:\n            _pb += pkt.__bytearray__()\n        _bytes += self.calg.compress(bytes(_pb))',
   "        _pb = b''.join(bytes(pkt.__bytearray__()) for pkt in self.packets)\n        _bytes += self.calg.compress(_pb)")
+M('C08', 'reason-width-open-slice', SS, '        self.string = packet[:(self.header.length - 2)]\n        del packet[:(self.header.length - 2)]',
+  '        self.string = packet[:]\n        del packet[:]', 'C08.d')
+M('C08', 'reason-width-end-relative', SS, '        self.string = packet[:(self.header.length - 2)]\n        del packet[:(self.header.length - 2)]',
+  '        self.string = packet[:-1]\n        del packet[:-1]', 'C08.d')
 # --- end C08 hardening
 M('C09', 'old-tag-shift', PT, "        tag |= (self.tag) if self._lenfmt else ((self.tag << 2) | {1: 0, 2: 1, 4: 2, 0: 3}[self.llen])", "        tag |= (self.tag) if self._lenfmt else ((self.tag << 1) | {1: 0, 2: 1, 4: 2, 0: 3}[self.llen])", 'C09.8')
 M('C09', 'tag-mask-1f', PT, "        _tag = (val & 0x3F) if self._lenfmt else ((val & 0x3C) >> 2)", "        _tag = (val & 0x1F) if self._lenfmt else ((val & 0x3C) >> 2)", 'C09.8')
